@@ -66,7 +66,7 @@ def run(ctx):
     # R1
     F = ctx.flow
     add = m.fn(INF + ".AbstractType.addsubtype")
-    callers = [(c[0].qualname, src(c[1])) for c in F.callers(add)]
+    callers = [(m.owner(c[0]).qualname, src(c[1])) for c in F.callers(add)]
     run.check(callers == [(BP + ".start_sectiontype",
                            "interface.addsubtype(sectinfo)")]
               or (len(callers) == 1
